@@ -58,7 +58,7 @@ Definition to_oev (e : hev) : oev :=
      em := hev_em e; ret := hev_ret e |}.
 
 Definition pclass (c : case) : N :=
-  match c with Hist a m _ h => c06_class a m (map to_oev h) end.
+  match c with Hist a m n h => c06_class a m n (map to_oev h) end.
 
 Definition mismatches (cs : list case) : list N := bad_indices (fun c => negb (agrees c)) cs.
 Definition property_failures (cs : list case) : list (N * N) := classes pclass cs.
